@@ -1667,6 +1667,14 @@ class Interp:
         return None
 
     def cut_loop(self, s, fr, spec, key, ordinal, iter_state):
+        try:
+            return self._cut_loop(s, fr, spec, key, ordinal, iter_state)
+        except KeyError as e:
+            # the sidecar's invariant / variant names a local the loop no longer has: the annotation does not
+            # fit the code any more - undecided, never a verdict
+            raise Undecided(f"loop annotation of {key} (loop {ordinal}) refers to {e} which the code does not bind")
+
+    def _cut_loop(self, s, fr, spec, key, ordinal, iter_state):
         tag = f"{key.split(':')[-1]}.loop{ordinal}"
         I = self
         # 1. invariant on entry
